@@ -97,8 +97,12 @@ def make_input(cls, k, ureports, absdir):
              'task a "A" { effort 4h allocate r depends !b }\ntask b "B" { effort 4h allocate r depends !a }\n' % k)
         return (t + report_defs(ureports, absdir)).encode("utf-8")
     if cls == "syntax":
+        # the last two are grammatical: the engine rejects them while building the project, through
+        # MessageHandler.error() -> sys.exit() (a report file name with a forbidden character) - finding F51
         bad = [base_project(k)[:-3] + " {", 'project p "P" 2025-01-06 +2w {', "this is not a project\n",
-               base_project(k) + "task { }\n"][k % 4]
+               base_project(k) + "task { }\n",
+               base_project(k) + 'taskreport rq "what?" {\n  formats csv\n  columns id, start\n}\n',
+               base_project(k) + 'taskreport rs "a|b" {\n  formats html\n  columns id\n}\n'][k % 6]
         return (bad + report_defs(ureports, absdir)).encode("utf-8")
     if cls == "blank":
         return [b"   \n\n", b"\n", b" \t \r\n  \n", b"\x0c\n "][k % 4]
